@@ -1,6 +1,7 @@
 package rules
 
 import (
+	"go/token"
 	"go/types"
 	"sort"
 	"strings"
@@ -329,6 +330,70 @@ func c07(c *Ctx) {
 					}
 				}
 			}
+			// membership by a search loop over the keys (what slices.Contains stands for): found := …; if elem == k { found = true }
+			{
+				var hit []cfgx.Edge
+				for _, b := range w.Blocks {
+					for _, in := range b.Instrs {
+						bo, ok := in.(*ssa.BinOp)
+						if !ok || bo.Op != token.EQL {
+							continue
+						}
+						fromKeys := func(v ssa.Value) bool {
+							return flow.Default.Any(v, func(x ssa.Value) bool {
+								switch y := x.(type) {
+								case *ssa.IndexAddr:
+									return flow.Root(y.X) == keysParam
+								case *ssa.Index:
+									return flow.Root(y.X) == keysParam
+								case *ssa.Range:
+									return flow.Root(y.X) == keysParam
+								}
+								return false
+							})
+						}
+						if fromKeys(bo.X) != fromKeys(bo.Y) {
+							t, _ := cfgx.CondEdges(bo)
+							hit = append(hit, t...)
+						}
+					}
+				}
+				for _, phi := range cfgx.FlagPhis(w, hit) {
+					_, f := cfgx.CondEdges(phi)
+					keep = append(keep, f...)
+				}
+				// … or by an index search (slices.Index / slices.Contains as the library defines it): idx < 0 means absent
+				if len(hit) > 0 {
+					for _, b := range w.Blocks {
+						for _, in := range b.Instrs {
+							bo, ok := in.(*ssa.BinOp)
+							if !ok {
+								continue
+							}
+							k, isC := cfgx.ConstInt(bo.Y)
+							if !isC {
+								continue
+							}
+							miss := false
+							for _, l := range leavesUpTo(bo.X, nil) {
+								if z, ok := cfgx.ConstInt(l); ok && z == -1 {
+									miss = true
+								}
+							}
+							if !miss {
+								continue
+							}
+							t, f := cfgx.CondEdges(bo)
+							switch {
+							case bo.Op == token.GEQ && k == 0, bo.Op == token.NEQ && k == -1, bo.Op == token.GTR && k == -1:
+								keep = append(keep, f...)
+							case bo.Op == token.LSS && k == 0, bo.Op == token.EQL && k == -1, bo.Op == token.LEQ && k == -1:
+								keep = append(keep, t...)
+							}
+						}
+					}
+				}
+			}
 			c.requireCross(load.FuncName(w)+": out[k]= only if not filtered", out, keep, "filter[k]==false")
 			_, isEx := out.Value.(*ssa.Extract)
 			c.R.Check(isEx && sameRange(out.Key, out.Value), load.FuncName(w)+": value-preserving", c.pos(out.Pos()), "stores the original value of the same entry (no recursion into nested maps)", "withoutKeys transforms nested values: user fields below the top level that share a machinery name would be dropped")
@@ -400,7 +465,7 @@ func c07(c *Ctx) {
 				continue
 			}
 			found = true
-			good := lookupOf(a[1], "status") && flow.Default.AnyCall(a[2], stp) && flow.Default.AnyCall(a[2], xp+pkgClaim+".withSrcFilter")
+			good := lookupOf(a[1], "status") && anyCallThrough(a[2], stp) && flow.Default.AnyCall(a[2], xp+pkgClaim+".withSrcFilter")
 			c.R.Check(good, site(m)+" status-filter", c.pos(m.Pos()), "merge(claim status, xr status, withSrcFilter(status table))", "the XR status is merged into the claim without the status-table filter")
 		}
 		if !found {
